@@ -183,13 +183,20 @@ def check_pairs(case):
             edges2 = [PAIRS3[i] for i in range(6) if e2['mask'] >> i & 1]
             Es.append(('F', tuple(e2['ilis']), edges2))
             lexs.append(build_E('F', e2['ilis'], edges2, 'fr'))
+        # an installed extension of E that adds every possible hypernym edge between E's synsets: it is not
+        # an expand lexicon, so nothing may be borrowed from it
+        lexs.append(mk.lexicon('EX', '1', extends={'id': 'E', 'version': '1'},
+                               synsets=[{'id': f'E-{a}', 'external': True,
+                                         'relations': [mk.rel(f'E-{b}', 'hypernym') for b in range(3) if b != a]}
+                                        for a in range(3)]))
         Ls = []
         for j, (lil, own) in enumerate(case['Ls']):
             lid = f'L{j}'
             own = [tuple(p) for p in own]
             Ls.append((lid, tuple(lil), own))
             lexs.append(build_L(lid, lil, own))
-        env.add_resource(mk.resource(lexs, '1.3'))
+        env.add_resource(mk.resource([x for x in lexs if not x.get('extends')], '1.3'))
+        env.add_resource(mk.resource([x for x in lexs if x.get('extends')], '1.3'))
         n = 0
         for (lid, lil, own) in Ls:
             g = dict(case, Ls=[[list(lil), [list(p) for p in own]]])
